@@ -537,8 +537,8 @@ package transport
 //@   ghost gN int64 = 0
 //@   aftercall LimitReader?: gLR = ret0
 //@   aftercall LimitReader?: gN = arg1
-//@   callsite LimitReader?: [C01:bounded-body] arg1 <= 65535 && arg0 == gResp.Body
-//@   callsite ReadFrom: [C01:reply-read-through-the-64k-limit] arg1 == gLR && gN == 65535
+//@   callsite LimitReader?: [C01,C05:bounded-body] arg1 <= 65535 && arg0 == gResp.Body
+//@   callsite ReadFrom: [C01,C05:reply-read-through-the-64k-limit] arg1 == gLR && gN == 65535
 //@ func copyMsg(m []byte) (b pool.Buffer)
 //@   props C20
 //@   modifies nothing
